@@ -126,6 +126,17 @@ func postCond(e ast.Expr) string {
 			return "(.or " + postCond(x.X) + " " + postCond(x.Y) + ")"
 		}
 		if c, ok := cmpCtor[x.Op]; ok {
+			if nospace(x.X) == "item.GetURL().GetHops()" && nospace(x.Y) == "config.Get().MaxHops" {
+				return "(.atom (.hopsCmpMaxHops " + c + "))"
+			}
+			if nospace(x.X) == "item.GetURL().GetBody()" && nospace(x.Y) == "nil" {
+				if x.Op == token.NEQ {
+					return "(.atom .hasBody)"
+				}
+				if x.Op == token.EQL {
+					return "(.not (.atom .hasBody))"
+				}
+			}
 			if lit, ok := x.Y.(*ast.BasicLit); ok && lit.Kind == token.INT {
 				switch nospace(x.X) {
 				case "item.GetDepthWithoutRedirections()":
@@ -134,6 +145,10 @@ func postCond(e ast.Expr) string {
 					return "(.atom (.maxHopsCmp " + c + " " + lit.Value + "))"
 				}
 			}
+		}
+	case *ast.Ident:
+		if x.Name == "true" || x.Name == "false" {
+			return "(.const " + x.Name + ")"
 		}
 	case *ast.CallExpr:
 		switch nospace(x) {
@@ -201,4 +216,55 @@ func extractPostEarly(s *section) {
 		return
 	}
 	s.raw("postEarlyGuards", "List PCond", "["+strings.Join(guards, ", ")+"]", guards)
+}
+
+// boolFunc translates a function that only tests and returns booleans: `if c { return true }` / `if c { return false }` … `return e`
+func boolFunc(fd *ast.FuncDecl) (string, bool) {
+	if fd == nil || fd.Body == nil {
+		return "", false
+	}
+	var rec func(list []ast.Stmt) (string, bool)
+	rec = func(list []ast.Stmt) (string, bool) {
+		if len(list) == 0 {
+			return "", false
+		}
+		switch x := list[0].(type) {
+		case *ast.ReturnStmt:
+			if len(x.Results) == 1 {
+				return postCond(x.Results[0]), true
+			}
+		case *ast.IfStmt:
+			if x.Init == nil && x.Else == nil && len(x.Body.List) == 1 {
+				if r, ok := x.Body.List[0].(*ast.ReturnStmt); ok && len(r.Results) == 1 {
+					rest, ok := rec(list[1:])
+					if !ok {
+						return "", false
+					}
+					c := postCond(x.Cond)
+					switch nospace(r.Results[0]) {
+					case "true":
+						return "(.or " + c + " " + rest + ")", true
+					case "false":
+						return "(.and (.not " + c + ") " + rest + ")", true
+					}
+				}
+			}
+		}
+		return "", false
+	}
+	return rec(fd.Body.List)
+}
+
+func extractGuards(s *section) {
+	for _, g := range []struct{ name, file, fn string }{
+		{"wantAssetsCond", "internal/pkg/postprocessor/assets.go", "shouldExtractAssets"},
+		{"wantOutlinksCond", "internal/pkg/postprocessor/outlinks.go", "shouldExtractOutlinks"},
+	} {
+		t, ok := boolFunc(fn(g.file, g.fn))
+		if !ok {
+			s.Facts = append(s.Facts, fact{Name: g.name, Type: "PCond", Value: "(.unknown \"not a test-and-return function\")", JSON: nil, Miss: true})
+			continue
+		}
+		s.raw(g.name, "PCond", t, t)
+	}
 }
